@@ -104,10 +104,16 @@ def check_C06(chk):
     c06c(chk)
     c06d(chk)
     stat_run_hands_spectrum_on(chk, "C06.d")
+    stat_runner_prints_value_as_computed(chk, "C06.d")
     c06e(chk)
     f_statistic_formulas(chk)
     cells_paired_with_frequencies(chk)
     frequency_definition(chk, "C06.e")
+    # shared clauses: the estimators sum over the polymorphic classes only (decided for C14), and pi's C(n, 2) comes from the factorial
+    # helpers decided for C02
+    chk.borrow(lambda: c14d(chk), "C06.f", 5)
+    import rules_create as RC_
+    chk.borrow(lambda: RC_.c02g(chk), "C06.g", 7)
     for r, n in (("C06.a", 28), ("C06.b", 16), ("C06.c", 7), ("C06.d", 10), ("C06.e", 6)):
         chk.floor(r, n)
 
@@ -601,6 +607,9 @@ def check_C14(chk):
     c14b(chk)
     c14c(chk)
     c14d(chk)
+    # shared clause: Hudson's Fst pairs each population's frequency with its own sample size (decided for C06), else swapping the
+    # populations changes it
+    chk.borrow(lambda: c06e(chk), "C14.e", 5)
     for r, n in (("C14.a", 7), ("C14.b", 14), ("C14.c", 3), ("C14.d", 5)):
         chk.floor(r, n)
 
@@ -671,6 +680,17 @@ def stat_run_hands_spectrum_on(chk, rule):
     other = sorted({u for u in users if "::runner::Runner" not in u})
     chk.ob(rule, "Stat::run/spectrum-goes-to-the-runner-only", bool(users) and not other, f.loc(rd[0][0]),
            "the spectrum read is handed to stat::runner::Runner and used by nothing else in Stat::run (other users: %s)" % (other or "none"))
+
+
+def stat_runner_prints_value_as_computed(chk, rule):
+    """the number `sfs stat` prints is the number the statistic returned: the output code of cli/src/stat/runner.rs computes nothing on f64
+    (a flush-to-zero below a fixed magnitude is wrong at every precision but the one it was written for)"""
+    prog = chk.prog
+    import rules_io as RIO
+    fns = [g for g in prog.fn_list if not g.derived and g.path.startswith("sfs::stat::runner::")]
+    comp = RIO.float_computation_in(prog, fns)
+    chk.ob(rule, "stat::runner/prints-the-computed-value(no-float-computation)", len(fns) >= 4 and not comp, "",
+           "f64 operations in %d functions of sfs::stat::runner: %s" % (len(fns), comp or "none"))
 
 
 def const_index_arrays(chk, f):
